@@ -100,7 +100,9 @@ __CPROVER_ensures(RET == g_last_error)
 
 /* ---- size arithmetic: (index+1)*ISZ fits in size_t  <=>  index < SIZE_MAX / ISZ ---- */
 #define AL_NEED_OK(i) ((i) < SIZE_MAX / ISZ)
-#define AL_NEED(i) (((i) + 1) * ISZ)
+/* bytes needed so that index i exists: i*ISZ + ISZ - the form in which set_at / push_front address the slot;
+ * calc_necessary_size (which computes (i+1)*item_size) proves the two forms equal, once */
+#define AL_NEED(i) ((i) * ISZ + ISZ)
 #define AL_FITS_(cur, i) (AL_NEED_OK(i) && (cur) >= AL_NEED(i))
 #define AL_GROWS_(cur, alloc, i) (AL_NEED_OK(i) && (cur) < AL_NEED(i) && (alloc) != NULL)
 #define AL_ENSURE_OK_(cur, alloc, i) (AL_NEED_OK(i) && ((cur) >= AL_NEED(i) || (alloc) != NULL))
@@ -264,7 +266,8 @@ AL_REQ_WITNESS(list)
 __CPROVER_requires(g_on ==> g_mm == g_k) /* ghost only: the memmove witness is the byte that holds old byte g_k */
 __CPROVER_assigns(AL_ENSURE_OK(list, list->length) : list->length)
 __CPROVER_assigns(AL_GROWS(list, list->length) : list->data, list->current_size)
-__CPROVER_assigns(AL_FITS(list, list->length) : __CPROVER_object_upto(AL_BYTES(list), (list->length + 1) * ISZ))
+__CPROVER_assigns(AL_FITS(list, list->length) : __CPROVER_object_upto(AL_BYTES(list), ISZ))
+__CPROVER_assigns(AL_FITS(list, list->length) && list->length > 0 : __CPROVER_object_upto(AL_BYTES(list) + ISZ, list->length * ISZ))
 __CPROVER_frees(AL_GROWS(list, list->length) : list->data)
 AL_ERR_FRAME(!AL_ENSURE_OK(list, list->length))
 __CPROVER_ensures(RET == AWS_OP_SUCCESS || RET == AWS_OP_ERR)
@@ -309,7 +312,7 @@ __CPROVER_assigns(AL_POPN_MOVES(list, n) : __CPROVER_object_upto(AL_BYTES(list),
 __CPROVER_ensures(list->length == (n >= OLD(list->length) ? 0 : OLD(list->length) - n))
 __CPROVER_ensures(AL_INV_Q(list))
 /* old element i >= n is now element i-n */
-__CPROVER_ensures(g_on && n < OLD(list->length) && g_k >= n * ISZ && g_k < OLD(list->length) * ISZ ==> AL_BYTES(list)[g_k - n * ISZ] == g_old)
+__CPROVER_ensures(g_on && n < OLD(list->length) && g_k >= n * ISZ && g_k - n * ISZ < (OLD(list->length) - n) * ISZ ==> AL_BYTES(list)[g_k - n * ISZ] == g_old)
 ;
 
 AWS_STATIC_IMPL int aws_array_list_pop_front(struct aws_array_list *AWS_RESTRICT list)
@@ -324,22 +327,30 @@ __CPROVER_ensures((RET == AWS_OP_SUCCESS) == (OLD(list->length) > 0))
 __CPROVER_ensures(RET != AWS_OP_SUCCESS ==> g_last_error == AWS_ERROR_LIST_EMPTY)
 __CPROVER_ensures(list->length == OLD(list->length) - (RET == AWS_OP_SUCCESS ? 1 : 0))
 __CPROVER_ensures(AL_INV_Q(list))
-__CPROVER_ensures(g_on && g_k >= ISZ && g_k < OLD(list->length) * ISZ ==> AL_BYTES(list)[g_k - ISZ] == g_old)
+__CPROVER_ensures(g_on && OLD(list->length) > 1 && g_k >= ISZ && g_k - ISZ < (OLD(list->length) - 1) * ISZ ==> AL_BYTES(list)[g_k - ISZ] == g_old)
 ;
 
-/* erase(k): elements < k untouched (frame), old element i > k is now element i-1, length-1 */
+/* erase(k): elements < k untouched (frame), old element i > k is now element i-1, length-1.
+ * The frame is the union of what the three branches write, written with the code's own terms (front: pop_front's
+ * range; back: the zeroed last slot; middle: the moved tail and the zeroed last slot).
+ * Content: byte g_k of the tail [k*ISZ + ISZ, +trailing_bytes) moved down by ISZ. */
+#define AL_ERASE_TAIL(l, i) ((((l)->length - (i)) - 1) * ISZ)
 AWS_STATIC_IMPL int aws_array_list_erase(struct aws_array_list *AWS_RESTRICT list, size_t index)
 AL_REQ_OK(list)
 AL_REQ_WITNESS(list)
-__CPROVER_requires(g_on ==> g_mm == g_k - (index + 1) * ISZ) /* ghost only */
-__CPROVER_assigns(index < list->length : list->length, __CPROVER_object_upto(AL_BYTES(list) + index * ISZ, (list->length - index) * ISZ))
+__CPROVER_requires(g_on ==> g_mm == g_k - (index * ISZ + ISZ)) /* ghost only */
+__CPROVER_assigns(index < list->length : list->length)
+__CPROVER_assigns(index == 0 && list->length > 1 : __CPROVER_object_upto(AL_BYTES(list), (list->length - 1) * ISZ))
+__CPROVER_assigns(index > 0 && index < list->length : __CPROVER_object_upto(AL_BYTES(list) + (list->length - 1) * ISZ, ISZ))
+__CPROVER_assigns(index > 0 && index < list->length && index != list->length - 1 : __CPROVER_object_upto(AL_BYTES(list) + index * ISZ, AL_ERASE_TAIL(list, index)))
 AL_ERR_FRAME(index >= list->length)
 __CPROVER_ensures(RET == AWS_OP_SUCCESS || RET == AWS_OP_ERR)
 __CPROVER_ensures((RET == AWS_OP_SUCCESS) == (index < OLD(list->length)))
 __CPROVER_ensures(RET != AWS_OP_SUCCESS ==> g_last_error == AWS_ERROR_INVALID_INDEX)
 __CPROVER_ensures(list->length == OLD(list->length) - (RET == AWS_OP_SUCCESS ? 1 : 0))
 __CPROVER_ensures(AL_INV_Q(list))
-__CPROVER_ensures(g_on && RET == AWS_OP_SUCCESS && g_k >= (index + 1) * ISZ && g_k < OLD(list->length) * ISZ ==> AL_BYTES(list)[g_k - ISZ] == g_old)
+__CPROVER_ensures(g_on && RET == AWS_OP_SUCCESS && g_k >= index * ISZ + ISZ && g_k - (index * ISZ + ISZ) < ((OLD(list->length) - index) - 1) * ISZ ==>
+                  AL_BYTES(list)[g_k - ISZ] == g_old)
 ;
 
 /* ------------------------------------------------------------------ swap */
